@@ -1,5 +1,196 @@
+(* Props/C20.v -- Proxy authentication is enforced on every entry path.
+   Statements only; each is closed by [exact] of a lemma proved in Proofs/ProxyAuth*.v.
+   V is any validator (SingleUser, AcceptAll, Htpasswd, Ldap: any function of user and password);
+   ip = is_http_proxy (regular/upstream: Proxy-Authorization + 407; reverse/transparent/socks5:
+   Authorization + 401); ms1 = false is parse_http_basic_auth as found (split on every colon),
+   ms1 = true the repaired one (fixes/C20-colon-password.diff). Theorems with ms1 universally
+   quantified hold for both. *)
 From Coq Require Import List Bool NArith.
-From MV Require Import Base.Bytes Model.ProxyAuth.
-Theorem C20_placeholder : a2b_base64 [] = Some [].
-Proof. reflexivity. Qed.
-Print Assumptions C20_placeholder.
+From MV Require Import Base.Bytes Model.ProxyAuth Proofs.ProxyAuthCodec Proofs.ProxyAuthHooks Proofs.ProxyAuthComplete.
+Import ListNotations.
+Local Open Scope N_scope.
+
+(* ---- soundness: no valid credentials => authentication-required answer, nothing to the server side *)
+
+(* a plain request (absolute-form, reverse, transparent, tunnelled) on a connection that has not
+   authenticated and that carries no credentials the validator accepts: flow.response is 407/401,
+   the state is unchanged and the core sends that answer -- or, if stream_large_bodies had already
+   switched the request body to streaming, raises instead (finding stream-large-bodies-no-answer) *)
+Theorem C20_unauthenticated_request_denied : forall ms1 (V : validator) st c ip sm hs,
+  lookup c st = None -> ~ valid_creds ms1 V (new_flow c ip false sm hs) ->
+  step ms1 (Some V) st (EReq c ip false false sm hs) =
+    (st, OHttp (deny_flow c ip false sm hs) (if sm then [Crash] else [ToClient (auth_required_status ip)])).
+Proof. exact unauth_request_denied. Qed.
+Print Assumptions C20_unauthenticated_request_denied.
+
+(* the answer part of the property is false when the body is streamed ... *)
+Theorem C20_denied_answer_refuted :
+  exists ms1 (V : validator) st c ip hs,
+    lookup c st = None /\ ~ valid_creds ms1 V (new_flow c ip false true hs) /\
+    step ms1 (Some V) st (EReq c ip false false true hs) = (st, OHttp (deny_flow c ip false true hs) [Crash]).
+Proof. exact unauth_streaming_no_answer. Qed.
+Print Assumptions C20_denied_answer_refuted.
+
+(* ... and holds exactly outside that case *)
+Theorem C20_denied_answer_partial : forall ms1 (V : validator) st c ip hs,
+  lookup c st = None -> ~ valid_creds ms1 V (new_flow c ip false false hs) ->
+  step ms1 (Some V) st (EReq c ip false false false hs) =
+    (st, OHttp (deny_flow c ip false false hs) [ToClient (auth_required_status ip)]).
+Proof. exact unauth_request_answered. Qed.
+Print Assumptions C20_denied_answer_partial.
+
+(* CONNECT (regular and upstream mode) without acceptable credentials: 407/401, no tunnel, no connection *)
+Theorem C20_unauthenticated_connect_denied : forall ms1 (V : validator) st c ip rp sm hs,
+  ~ valid_creds ms1 V (new_flow c ip rp sm hs) ->
+  step ms1 (Some V) st (EReq c ip true rp sm hs) =
+    (st, OHttp (deny_flow c ip rp sm hs) [ToClient (auth_required_status ip)]).
+Proof. exact unauth_connect_denied. Qed.
+Print Assumptions C20_unauthenticated_connect_denied.
+
+(* in all denial cases, streaming or not: state unchanged, no OpenConnection, no request, no tunnel *)
+Theorem C20_unauthenticated_nothing_forwarded : forall ms1 (V : validator) st c ip ic rp sm hs,
+  (ic = true \/ (rp = false /\ lookup c st = None)) -> ~ valid_creds ms1 V (new_flow c ip rp sm hs) ->
+  fst (step ms1 (Some V) st (EReq c ip ic rp sm hs)) = st /\
+  ~ reaches_server (snd (step ms1 (Some V) st (EReq c ip ic rp sm hs))).
+Proof. exact unauth_nothing_forwarded. Qed.
+Print Assumptions C20_unauthenticated_nothing_forwarded.
+
+(* SOCKS5: credentials the validator rejects get the RFC 1929 failure 01 01 and the connection is closed *)
+Theorem C20_socks_invalid_rejected : forall (V : validator) st c buf ub pb rest,
+  state_auth_parse buf = AuthMsg ub pb rest ->
+  V (decode_with h_backslashreplace ub) (decode_with h_backslashreplace pb) = false ->
+  state_auth (Some V) st c buf = (st, SFail [x01; x01]).
+Proof. exact socks_invalid_rejected. Qed.
+Print Assumptions C20_socks_invalid_rejected.
+
+(* for EVERY history of events on any number of connections: whatever reaches the server side is
+   covered by accepted credentials in the request itself, or by an accepted CONNECT / SOCKS5
+   negotiation earlier on the same connection (or is an operator-initiated replay) *)
+Theorem C20_history_sound : forall ms1 (V : validator) hist e,
+  reaches_server (snd (step ms1 (Some V) (final_state ms1 (Some V) [] hist) e)) ->
+  match e with
+  | EReq c ip true rp sm hs => valid_creds ms1 V (new_flow c ip rp sm hs)
+  | EReq c ip false rp sm hs =>
+      valid_creds ms1 V (new_flow c ip rp sm hs) \/ rp = true \/ justified ms1 V hist c
+  | ESocks c u p => V u p = true
+  end.
+Proof. exact history_sound. Qed.
+Print Assumptions C20_history_sound.
+
+Theorem C20_authenticated_only_by_credentials : forall ms1 (V : validator) hist c,
+  lookup c (final_state ms1 (Some V) [] hist) <> None -> justified ms1 V hist c.
+Proof. exact authenticated_only_by_credentials. Qed.
+Print Assumptions C20_authenticated_only_by_credentials.
+
+Theorem C20_other_connection_no_effect : forall ms1 (V : validator) st e c,
+  ev_conn e <> c -> lookup c (fst (step ms1 (Some V) st e)) = lookup c st.
+Proof. exact other_connection_no_effect. Qed.
+Print Assumptions C20_other_connection_no_effect.
+
+(* ---- authenticated on the connection => later requests pass, headers untouched *)
+Theorem C20_authenticated_later_pass : forall ms1 (V : validator) pre e0 mid c ip rp sm hs,
+  ev_conn e0 = c -> ev_authenticates ms1 V e0 ->
+  exists m,
+    step ms1 (Some V) (final_state ms1 (Some V) [] (pre ++ e0 :: mid)) (EReq c ip false rp sm hs) =
+      (final_state ms1 (Some V) [] (pre ++ e0 :: mid),
+       OHttp (mkFlow c ip rp sm hs None (Some m)) [OpenServer; ToServer hs]).
+Proof. exact authenticated_later_pass. Qed.
+Print Assumptions C20_authenticated_later_pass.
+
+(* ---- accepted credentials: forwarded without the credential header, all other headers kept in order *)
+Theorem C20_valid_request_forwarded : forall ms1 (V : validator) st c ip sm hs u p,
+  lookup c st = None -> creds_of ms1 (new_flow c ip false sm hs) = Some (u, p) -> V u p = true ->
+  step ms1 (Some V) st (EReq c ip false false sm hs) =
+    (st, OHttp (pass_flow c ip false sm hs u p) [OpenServer; ToServer (headers_del (http_auth_header ip) hs)]).
+Proof. exact valid_request_forwarded. Qed.
+Print Assumptions C20_valid_request_forwarded.
+
+Theorem C20_credential_header_removed : forall k hs h,
+  In h (headers_del k hs) <-> In h hs /\ name_is k h = false.
+Proof. exact headers_del_spec. Qed.
+Print Assumptions C20_credential_header_removed.
+
+(* ---- completeness.  A proper credential: exactly one header of the entry path, value =
+   scheme (any letter case) SP base64(utf-8(u COLON p)), u without colon (RFC 7617), p arbitrary *)
+
+(* repaired code: every pair the validator accepts is accepted, colons in the password included *)
+Theorem C20_complete_request_fixed : forall (V : validator) st c ip sm hs sb u p raw,
+  V u p = true -> lookup c st = None -> carries ip hs (proper_value sb raw) ->
+  str_lower (ascii sb) = BASIC -> nocolon u = true -> encode_strict (u ++ COLON :: p) = Some raw ->
+  step true (Some V) st (EReq c ip false false sm hs) =
+    (st, OHttp (pass_flow c ip false sm hs u p) [OpenServer; ToServer (headers_del (http_auth_header ip) hs)]).
+Proof. exact complete_request_fixed. Qed.
+Print Assumptions C20_complete_request_fixed.
+
+Theorem C20_complete_connect_fixed : forall (V : validator) st c ip rp sm hs sb u p raw,
+  V u p = true -> carries ip hs (proper_value sb raw) ->
+  str_lower (ascii sb) = BASIC -> nocolon u = true -> encode_strict (u ++ COLON :: p) = Some raw ->
+  step true (Some V) st (EReq c ip true rp sm hs) =
+    (set_auth c (u, p) st, OHttp (pass_flow c ip rp sm hs u p) [Tunnel; ToClient 200]).
+Proof. exact complete_connect_fixed. Qed.
+Print Assumptions C20_complete_connect_fixed.
+
+(* code as found: false (password u:p:q with AcceptAll is answered 407/401 on both hooks) ... *)
+Theorem C20_complete_refuted :
+  exists (V : validator) u p raw sb,
+    V u p = true /\ nocolon u = true /\ str_lower (ascii sb) = BASIC /\
+    encode_strict (u ++ COLON :: p) = Some raw /\
+    forall st c ip sm, lookup c st = None ->
+      let hs := [(http_auth_header ip, proper_value sb raw)] in
+      carries ip hs (proper_value sb raw) /\
+      step false (Some V) st (EReq c ip false false sm hs) =
+        (st, OHttp (deny_flow c ip false sm hs) (if sm then [Crash] else [ToClient (auth_required_status ip)])) /\
+      step false (Some V) st (EReq c ip true false sm hs) =
+        (st, OHttp (deny_flow c ip false sm hs) [ToClient (auth_required_status ip)]).
+Proof. exact colon_password_rejected. Qed.
+Print Assumptions C20_complete_refuted.
+
+(* ... and true exactly when the password has no colon *)
+Theorem C20_complete_request_partial : forall (V : validator) st c ip sm hs sb u p raw,
+  nocolon p = true ->
+  V u p = true -> lookup c st = None -> carries ip hs (proper_value sb raw) ->
+  str_lower (ascii sb) = BASIC -> nocolon u = true -> encode_strict (u ++ COLON :: p) = Some raw ->
+  step false (Some V) st (EReq c ip false false sm hs) =
+    (st, OHttp (pass_flow c ip false sm hs u p) [OpenServer; ToServer (headers_del (http_auth_header ip) hs)]).
+Proof. exact complete_request_partial. Qed.
+Print Assumptions C20_complete_request_partial.
+
+Theorem C20_complete_connect_partial : forall (V : validator) st c ip rp sm hs sb u p raw,
+  nocolon p = true ->
+  V u p = true -> carries ip hs (proper_value sb raw) ->
+  str_lower (ascii sb) = BASIC -> nocolon u = true -> encode_strict (u ++ COLON :: p) = Some raw ->
+  step false (Some V) st (EReq c ip true rp sm hs) =
+    (set_auth c (u, p) st, OHttp (pass_flow c ip rp sm hs u p) [Tunnel; ToClient 200]).
+Proof. exact complete_connect_partial. Qed.
+Print Assumptions C20_complete_connect_partial.
+
+(* SOCKS5 (RFC 1929 message for any encodable u, p of at most 255 bytes, colons included) *)
+Theorem C20_complete_socks : forall (V : validator) st c ver u p ub pb,
+  V u p = true -> encode_strict u = Some ub -> encode_strict p = Some pb ->
+  blen ub < 256 -> blen pb < 256 ->
+  state_auth (Some V) st c (ver :: Nb (blen ub) :: ub ++ Nb (blen pb) :: pb) =
+    (set_auth c (u, p) st, SOk [x01; x00] []).
+Proof. exact complete_socks. Qed.
+Print Assumptions C20_complete_socks.
+
+(* the codec facts the completeness theorems rest on, for all inputs *)
+Theorem C20_base64_roundtrip : forall raw, a2b_base64 (b64encode raw) = Some raw.
+Proof. exact a2b_roundtrip. Qed.
+Print Assumptions C20_base64_roundtrip.
+
+Theorem C20_utf8_roundtrip : forall h s raw, encode_strict s = Some raw -> decode_with h raw = s.
+Proof. exact dec_enc. Qed.
+Print Assumptions C20_utf8_roundtrip.
+
+(* hypotheses are satisfiable: non-ASCII user, password with a colon and a euro sign, a single-user
+   validator; accepted by the repaired code with the header removed, answered 407 by the code as found *)
+Theorem C20_nonvacuous :
+  encode_strict (sample_u ++ COLON :: sample_p) = Some sample_raw /\ nocolon sample_u = true /\
+  carries true sample_hs (proper_value cex_sb sample_raw) /\
+  step true (Some (fun u p => str_eqb u sample_u && str_eqb p sample_p)) [] (EReq 7 true false false false sample_hs) =
+    ([], OHttp (pass_flow 7 true false false sample_hs sample_u sample_p)
+               [OpenServer; ToServer [([x48; x6f; x73; x74], [x65]); ([x58], [x31])]]) /\
+  step false (Some (fun u p => str_eqb u sample_u && str_eqb p sample_p)) [] (EReq 7 true false false false sample_hs) =
+    ([], OHttp (deny_flow 7 true false false sample_hs) [ToClient 407]).
+Proof. exact sample_nonvacuous. Qed.
+Print Assumptions C20_nonvacuous.
